@@ -3,7 +3,7 @@
 Programs are generated as SKELETONS (Python data), rendered to jqawk text, and interpreted by the small
 interpreter below (the README's statement semantics over an outcome algebra Normal/Break/Continue/Return/
 Next/Exit/Error), which yields the expected label trace and outcome without looking at the model."""
-import json
+import json, copy
 from framework import Check, Case
 from jqlib import simple_run
 import pyref, opref, forinmut
@@ -129,6 +129,21 @@ class Interp:
             return [self.ev(x) for x in e[1]]
         if k == "obj":
             return {kk: self.ev(x) for kk, x in e[1]}
+        if k == "meth":
+            b = self.ev(e[1])
+            if not isinstance(b, list):
+                raise AssertionError("method outside the skeleton fragment")
+            if e[2] == "popfirst":
+                return b.pop(0) if b else None
+            if e[2] == "pop":
+                return b.pop() if b else None
+            raise AssertionError("method outside the skeleton fragment")
+        if k == "setfld":
+            v = self.ev(e[2])
+            if not isinstance(self.root, dict) or len(e[1]) != 1:
+                raise AssertionError("setfld outside the skeleton fragment")
+            self.root[e[1][0]] = v
+            return v
         if k == "call":
             f = self.prog["funcs"][e[1]]
             args = [self.ev(a) for a in e[2]]
@@ -322,7 +337,11 @@ def rx(e):
     if k == "fld":
         return "$" + "".join("." + p for p in e[1])
     if k == "op":
-        return "(%s %s %s)" % (rx(e[2]), e[1], rx(e[3]))
+        return "(%s %s %s)" % (rxo(e[2]), e[1], rxo(e[3]))
+    if k == "meth":
+        return "%s.%s()" % (rx(e[1]), e[2])
+    if k == "setfld":
+        return "$%s = %s" % ("".join("." + p for p in e[1]), rx(e[2]))
     if k == "not":
         return "!" + rx(e[1]) if e[1][0] in ("op", "v", "fld", "b") else "!(" + rx(e[1]) + ")"
     if k == "inc":
@@ -346,15 +365,36 @@ def rx(e):
     raise ValueError(e)
 
 
+def rxo(e):
+    """an operand: an assignment binds weaker than every operator"""
+    return "(" + rx(e) + ")" if e[0] in ("set", "setfld", "setkey") else rx(e)
+
+
 def unparen(t):
     return t[1:-1] if t.startswith("(") and t.endswith(")") and t.count("(") == 1 else t
 
 
+def unparen_all(t):
+    """t without the parentheses that enclose all of it"""
+    if not (t.startswith("(") and t.endswith(")")):
+        return t
+    d = 0
+    for i, ch in enumerate(t):
+        d += (ch == "(") - (ch == ")")
+        if d == 0 and i < len(t) - 1:
+            return t
+    return t[1:-1]
+
+
 class Render:
+    strip_all = False
+
     def __init__(self, rng):
         self.r = rng
 
     def cond(self, e):
+        if self.strip_all:
+            return unparen_all(rx(e)) if self.r.random() < 0.7 else rx(e)
         return unparen(rx(e)) if self.r.random() < 0.5 else rx(e)
 
     def match(self, e, ind):
@@ -960,6 +1000,195 @@ def exit_family(rng, thorough):
     return out
 
 
+# ---------------------------------------------------------------------------- conditions with side effects
+# while (C), for (..; C; ..) and if (C): C is evaluated exactly once per iteration / visit, whatever kinds of values it
+# compares.  C takes the next job from a queue, advances a counter, reassigns a variable / a member of the document, calls a
+# function that prints -- compared with strings, null, booleans as well as numbers, on either side, with every comparison
+# operator, or used for its truth value alone.  Everything C changes is printed in the body and after the loop.
+
+def V(n):
+    return ("v", n)
+
+
+def N(x):
+    return ("n", float(x))
+
+
+def S(x):
+    return ("s", x)
+
+
+NULL = ("null",)
+
+
+def lit_expr(x):
+    return ("n", x) if isinstance(x, float) else ("s", x) if isinstance(x, str) else NULL if x is None else ("b", x)
+
+
+def cond_templates(rng, host):
+    """[{init, cond, show, funcs, doc, what}]: every way a condition with a side effect is built; host "pat" may use the document"""
+    T = []
+
+    def add(what, cond, init=(), show=(), funcs=None, doc=None):
+        T.append({"what": what, "cond": cond, "init": list(init), "show": list(show), "funcs": funcs or {}, "doc": doc})
+
+    def queue(vals, what, mk):
+        """the queue in a variable, and (pattern rules) in the document"""
+        arr = ("arr", [lit_expr(x) for x in vals])
+        for pm in ("popfirst", "pop"):
+            add("%s, %s() from a variable" % (what, pm), mk(("meth", V("q"), pm)), [("X", ("set", "q", arr))], [V("job"), ("len", V("q"))])
+        if host == "pat":
+            pm = rng.choice(["popfirst", "popfirst", "pop"])
+            add("%s, %s() from the document" % (what, pm), mk(("meth", ("fld", ["queue"]), pm)), [], [V("job"), ("len", ("fld", ["queue"]))],
+                doc={"queue": list(vals)})
+
+    strs = rng.sample(["a", "b", "c", "d", "e", "k", "héy", "w"], rng.randint(2, 5))
+    nums = [float(rng.randint(1, 9)) for _ in range(rng.randint(2, 5))]
+    take = lambda m: ("set", "job", m)
+    # 1. drain a queue until null comes back
+    for vals, kind in ((strs, "strings"), (nums, "numbers"), (strs[:2] + nums[:2] + [True], "mixed values")):
+        queue(vals, "(job = next) != null over %s" % kind, lambda m: ("op", "!=", take(m), NULL))
+        queue(vals, "null != (job = next) over %s" % kind, lambda m: ("op", "!=", NULL, take(m)))
+        queue(vals, "!((job = next) == null) over %s" % kind, lambda m: ("not", ("op", "==", take(m), NULL)))
+    # a null in the middle of numbers: only that evaluation compares a non-number
+    holes = nums[:2] + [None] + nums[2:] + [float(rng.randint(1, 9)), None, 7.0]
+    queue(holes, "(job = next) >= 0 over numbers with nulls between them", lambda m: ("op", ">=", take(m), N(0)))
+    queue(holes, "0 <= (job = next) over numbers with nulls between them", lambda m: ("op", "<=", N(0), take(m)))
+    # until a sentinel
+    stop = strs[:]
+    stop.insert(rng.randint(1, len(stop)), "stop")
+    stop2 = stop + ["x", "stop"]
+    queue(stop2, '(job = next) != "stop"', lambda m: ("op", "!=", take(m), S("stop")))
+    both = ["stop"] + stop2
+    queue(both + ["stop"], '"stop" == (job = next) while it is', lambda m: ("op", "==", S("stop"), take(m)))
+    lo = sorted(strs, key=lambda z: z.encode())
+    queue(["a", "b", "zz", "c", "a", "zz"], '(job = next) < "m" over strings', lambda m: ("op", "<", take(m), S("m")))
+    queue(["zz", "y", "a", "x", "zz", "b"], '(job = next) > "m" over strings', lambda m: ("op", ">", take(m), S("m")))
+    queue([True, True, False, True, True, False], "(job = next) == true over booleans", lambda m: ("op", "==", take(m), ("b", True)))
+    queue(strs + [""] + strs, "job = next, for its truth value", lambda m: take(m))
+    queue(strs + ["stop"] + strs + ["stop"], '(job = next) != null && job != "stop"',
+          lambda m: ("op", "&&", ("op", "!=", take(m), NULL), ("op", "!=", V("job"), S("stop"))))
+    queue(strs, "the method call itself compared with null", lambda m: ("op", "!=", m, NULL))
+    queue(strs + strs[::-1], "two pops compared with each other", lambda m: ("op", "!=", m, m))
+    # 2. a counter advanced in the condition, the bound not a number
+    b = rng.randint(2, 5)
+    for bound, bw in ((S(str(b)), "a string literal"), (V("lim"), "a string in a variable"), (("fld", ["s"]), "a string in the document")):
+        if bound[0] == "fld" and host != "pat":
+            continue
+        doc = {"s": str(b)} if bound[0] == "fld" else None
+        ini = [("X", ("set", "lim", S(str(b))))] if bound[0] == "v" else []
+        for pre in (True, False):
+            sp = "++i" if pre else "i++"
+            add("%s < %s" % (sp, bw), ("op", "<", ("inc", "i", not pre), bound), ini, [V("i")], doc=doc)
+        add("i++ <= %s" % bw, ("op", "<=", ("inc", "i", True), bound), ini, [V("i")], doc=doc)
+        add("%s > i++" % bw, ("op", ">", bound, ("inc", "i", True)), ini, [V("i")], doc=doc)
+        add("i++ != %s" % bw, ("op", "!=", ("inc", "i", True), bound), ini, [V("i")], doc=doc)
+        add("!(++i == %s)" % bw, ("not", ("op", "==", ("inc", "i", False), bound)), ini, [V("i")], doc=doc)
+        add("d-- > \"0\" (next to %s)" % bw, ("op", ">", ("dec", "d", True), S("0")), ini + [("X", ("set", "d", N(b)))], [V("d")], doc=doc)
+    add("i++ < j-- (numbers on both sides)", ("op", "<", ("inc", "i", True), ("dec", "j", True)), [("X", ("set", "j", N(b + 3)))], [V("i"), V("j")])
+    add("i++ < n (numbers)", ("op", "<", ("inc", "i", True), N(b)), [], [V("i")])
+    add("i++ < true", ("op", "<", ("inc", "i", True), ("b", True)), [], [V("i")])
+    add("d--, for its truth value", ("dec", "d", True), [("X", ("set", "d", N(b)))], [V("d")])
+    # 3. an assignment in the condition
+    add("(n = n - 1) > 0", ("op", ">", ("set", "n", ("op", "-", V("n"), N(1))), N(0)), [("X", ("set", "n", N(b + 1)))], [V("n")])
+    add('(n = n - 1) > "0"', ("op", ">", ("set", "n", ("op", "-", V("n"), N(1))), S("0")), [("X", ("set", "n", N(b + 1)))], [V("n")])
+    add('"0" < (n = n - 1)', ("op", "<", S("0"), ("set", "n", ("op", "-", V("n"), N(1)))), [("X", ("set", "n", N(b + 1)))], [V("n")])
+    add("(n = n - 1) >= true", ("op", ">=", ("set", "n", ("op", "-", V("n"), N(1))), ("b", True)), [("X", ("set", "n", N(b + 1)))], [V("n")])
+    piece = rng.choice(["a", "ab", "é"])
+    add('(s = s + "%s") != "%s"' % (piece, piece * b), ("op", "!=", ("set", "s", ("op", "+", V("s"), S(piece))), S(piece * b)),
+        [("X", ("set", "s", S("")))], [V("s")])
+    add('(s = s + "%s") < "%s"' % (piece, piece * b), ("op", "<", ("set", "s", ("op", "+", V("s"), S(piece))), S(piece * b)),
+        [("X", ("set", "s", S("")))], [V("s")])
+    add("(f = !f) == true", ("op", "==", ("set", "f", ("not", V("f"))), ("b", True)), [("X", ("set", "f", ("b", False)))], [V("f")])
+    if host == "pat":
+        add('($.n = $.n - 1) >= "1"', ("op", ">=", ("setfld", ["n"], ("op", "-", ("fld", ["n"]), N(1))), S("1")), [], [("fld", ["n"])], doc={"n": float(b + 1)})
+        add("($.n = $.n - 1) > 0", ("op", ">", ("setfld", ["n"], ("op", "-", ("fld", ["n"]), N(1))), N(0)), [], [("fld", ["n"])], doc={"n": float(b + 1)})
+        add('($.s = $.s + "x") != "%s"' % ("x" * b), ("op", "!=", ("setfld", ["s"], ("op", "+", ("fld", ["s"]), S("x"))), S("x" * b)), [], [("fld", ["s"])],
+            doc={"s": ""})
+    # 4. a call that prints and counts
+    for go, halt, op, other, w in (("go", None, "!=", NULL, 'tick() != null'), ("go", "halt", "==", S("go"), 'tick() == "go"'),
+                                   (True, False, "==", ("b", True), "tick() == true"), (True, None, "!=", NULL, "tick() != null (true / null)"),
+                                   ("a", "z", "<", S("m"), 'tick() < "m"'), (1.0, None, ">", NULL, "tick() > null"),
+                                   (1.0, 0.0, ">", N(0), "tick() > 0 (numbers)"), ("go", "", None, None, "tick(), for its truth value")):
+        fb = [("P", "Ltick", [V("c")]), ("X", ("inc", "c", True)), ("IF", ("op", ">", V("c"), N(b)), ("RET", lit_expr(halt)), None), ("RET", lit_expr(go))]
+        call = ("call", "tick", [])
+        for swapped in ((False, True) if op in ("!=", "==") else (False,)):
+            cond = call if op is None else ("op", op, other, call) if swapped else ("op", op, call, other)
+            add(w + (" (operands swapped)" if swapped else ""), cond, [("X", ("set", "c", N(0)))], [V("c")], {"tick": {"params": [], "body": fb}})
+    fb = [("P", "Lnext", [V("pa"), V("c")]), ("X", ("inc", "c", True)), ("IF", ("op", ">=", V("c"), V("pa")), ("RET", NULL), None), ("RET", ("op", "+", S("k"), V("c")))]
+    add('(m = more(n)) != null', ("op", "!=", ("set", "m", ("call", "more", [N(b)])), NULL), [("X", ("set", "c", N(0)))], [V("m"), V("c")],
+        {"more": {"params": ["pa"], "body": fb}})
+    add('i++ < "%d" && tick()' % (b + 2), ("op", "&&", ("op", "<", ("inc", "i", True), S(str(b + 2))), ("call", "tick", [])), [("X", ("set", "c", N(0)))], [V("i"), V("c")],
+        {"tick": {"params": [], "body": [("P", "Ltick", [V("c")]), ("X", ("inc", "c", True)), ("RET", ("op", "<", V("c"), N(b)))]}})
+    return T
+
+
+COND_WRAPS = ["while", "for", "if-in-loop", "while-continue", "for-break", "nested", "while-in-func", "else-if"]
+
+
+def build_cond(rng, t, wrap, host):
+    n = [0]
+
+    def P(extra=()):
+        n[0] += 1
+        return ("P", "L%d" % n[0], list(extra))
+
+    show = t["show"]
+    C = t["cond"]
+    funcs = dict(t["funcs"])
+    reset = [("X", ("set", "i", N(0))), ("X", ("set", "job", S("none")))] + t["init"]
+    odd = ("op", "==", ("op", "%", V("k"), N(2)), N(1))
+    if wrap == "while":
+        core = reset + [("WH", C, ("B", [P(show), ("X", ("inc", "k", True))])), P(show + [V("k")])]
+    elif wrap == "for":
+        core = reset + [("FOR", ("set", "k", N(0)), C, ("inc", "k", rng.random() < 0.5), ("B", [P(show + [V("k")])])), P(show + [V("k")])]
+    elif wrap == "if-in-loop":
+        core = reset + [("FOR", ("set", "k", N(0)), ("op", "<", V("k"), N(rng.randint(3, 8))), ("inc", "k", True),
+                         ("IF", C, P(show + [V("k")]), P(show) if rng.random() < 0.7 else None)), P(show + [V("k")])]
+    elif wrap == "while-continue":
+        core = reset + [("WH", C, ("B", [("X", ("inc", "k", True)), ("IF", odd, ("CNT",), None), P(show + [V("k")])])), P(show + [V("k")])]
+    elif wrap == "for-break":
+        core = reset + [("FOR", ("set", "k", N(0)), C, ("inc", "k", True),
+                         ("B", [("IF", odd, ("CNT",), None), P(show + [V("k")]), ("IF", ("op", ">", V("k"), N(rng.randint(2, 6))), ("BRK",), None)])),
+                        P(show + [V("k")])]
+    elif wrap == "nested":
+        inner = reset + [("WH", C, P(show + [V("o")])), P(show)]
+        core = [("FOR", ("set", "o", N(0)), ("op", "<", V("o"), N(2)), ("inc", "o", True), ("B", inner)), P(show + [V("o")])]
+    elif wrap == "while-in-func":
+        funcs["drain"] = {"params": [], "body": reset + [("WH", C, ("B", [P(show), ("IF", ("op", ">", ("inc", "k", False), N(rng.randint(3, 9))), ("RET", V("k")), None)])),
+                                                          ("RET", S("done"))]}
+        core = [("P", "Lr", [("call", "drain", [])]), P(show + [V("k")])]
+    else:       # else-if
+        core = reset + [("FOR", ("set", "k", N(0)), ("op", "<", V("k"), N(rng.randint(3, 7))), ("inc", "k", True),
+                         ("IF", ("op", "==", V("k"), N(1)), P(show), ("IF", C, P(show + [V("k")]), P(show)))), P(show + [V("k")])]
+    init = [("X", ("set", v, N(0))) for v in ("i", "j", "k", "o", "c", "n", "d", "q", "s", "f", "m", "lim")] + [("X", ("set", "job", S("none")))]
+    rules = [{"kind": "BEGIN", "pattern": None, "body": init}]
+    if host == "BEGIN":
+        rules.append({"kind": "BEGIN", "pattern": None, "body": [P()] + core})
+        rules.append({"kind": "END", "pattern": None, "body": [P(show)]})
+    else:
+        rules.append({"kind": "pat", "pattern": None, "body": [P()] + core})
+        rules.append({"kind": "pat", "pattern": None, "body": [P([("fld", [])])]})
+        rules.append({"kind": "END", "pattern": None, "body": [P([V("k")])]})
+    return {"funcs": funcs, "rules": rules}
+
+
+def cond_family(rng, thorough):
+    """[(prog, docs, what)]"""
+    out = []
+    for host in ("BEGIN", "pat"):
+        for rep in range(3 if thorough else 1):
+            for t in cond_templates(rng, host):
+                wraps = COND_WRAPS if thorough else ["while", "for"] + rng.sample(COND_WRAPS[2:], 1)
+                for wrap in wraps:
+                    prog = build_cond(rng, t, wrap, host)
+                    base = t["doc"] if t["doc"] is not None else {"n": 3.0, "s": "x"}
+                    docs = [[dict(copy.deepcopy(base), id=float(j)) for j in range(rng.choice([1, 2]))]] if host == "pat" else []
+                    out.append((prog, docs, "condition with a side effect: %s; as %s in %s" % (t["what"], wrap, "BEGIN" if host == "BEGIN" else "a pattern rule")))
+    return out
+
+
+
 DANGLING = [
     ('if (a) if (b) print "X" else print "Y"', lambda a, b, c: ["X"] if a and b else ["Y"] if a else []),
     ('if (a) if (b) print "X"\n else print "Y"', lambda a, b, c: ["X"] if a and b else ["Y"] if a else []),
@@ -989,7 +1218,14 @@ class C07(Check):
             "nothing runs afterwards; for-in loops (arrays, objects, strings; "
             "held in a variable, a member, the document, a parameter) whose body changes the iterated collection (push / pop / "
             "popfirst / element stores / auto-fill / reassignment under guards, nested loops over the same array, `for (x in x)`): "
-            "the elements present at loop start are visited once each, in order; non-trivial = a loop inside a loop "
+            "the elements present at loop start are visited once each, in order; conditions WITH SIDE EFFECTS -- (job = q.popfirst()) != null "
+            "over strings / numbers / mixed values / numbers with nulls between them (queue in a variable or in the document), i++ < \"3\" and ++i, "
+            "i-- with the bound a string literal / variable / document member, (n = n - 1) > \"0\", (s = s + \"a\") != \"aaa\", ($.n = $.n - 1) >= \"1\", "
+            "(f = !f) == true, calls that print and count compared with null / strings / booleans, bare pop() calls, every comparison operator, either "
+            "operand order, under !, && and alone for their truth value -- as the condition of while, of the three-clause for, of an if visited in "
+            "a loop, with continue / break in the body, in a nested loop, in a function, in an else-if chain, in BEGIN and in pattern rules: "
+            "everything the condition changes is printed in the body and after the loop (the condition is evaluated exactly once per "
+            "iteration); non-trivial = a loop inside a loop "
             "or a control statement inside a loop, or >= 2 visits of a collection changed by the body")
 
     def generate(self, rng, tier):
@@ -997,16 +1233,18 @@ class C07(Check):
         n = 0
         thorough = tier == "thorough"
 
-        def add(prog, docs, what, nontrivial, renderings=1, files=None):
+        def add(prog, docs, what, nontrivial, renderings=1, files=None, strip_all=False):
             nonlocal n
             try:
-                want = Interp(prog, docs, files).run()
+                want = Interp(prog, copy.deepcopy(docs), files).run()      # the interpreter changes the documents in place
             except (TooLong, AssertionError):
                 return False
             if len(want[1]) > 20000 or (what == "random" and want[1].count("\n") < 4 and rng.random() < 0.9):
                 return False
             for _ in range(renderings):
-                text = Render(rng).program(prog)
+                rd = Render(rng)
+                rd.strip_all = strip_all
+                text = rd.program(prog)
                 cid = "t%d" % n
                 n += 1
                 if files is not None:
@@ -1075,6 +1313,14 @@ class C07(Check):
             except (TooLong, AssertionError):
                 longer = False
             add(prog, None, what, longer, 1, files)
+        # conditions with side effects (while / for / if), compared with strings, null, booleans as well as numbers: evaluated
+        # exactly once per iteration.  non-trivial = the body ran at least twice
+        for prog, docs, what in cond_family(rng, thorough):
+            try:
+                want = Interp(prog, copy.deepcopy(docs)).run()
+            except (TooLong, AssertionError):
+                continue
+            add(prog, copy.deepcopy(docs), what, want[1].count("\n") >= 5, 1, None, True)
         return cases
 
     def oracle(self, case, impl):
